@@ -4,7 +4,7 @@ use crate::dl::{self, Gen};
 use crate::luaref::lexer::{lex, Mode, Tok};
 use crate::luaref::{self, Outcome};
 use darklua_core::nodes::{
-    Block, DecimalNumber, Expression, FunctionCall, IndexExpression, InterpolatedStringExpression, LastStatement, Prefix, ReturnStatement,
+    BinaryExpression, BinaryOperator, Block, DecimalNumber, Expression, FunctionCall, IndexExpression, InterpolatedStringExpression, LastStatement, Prefix, ReturnStatement, UnaryExpression, UnaryOperator,
     StringExpression, StringSegment,
 };
 use rayon::prelude::*;
@@ -267,6 +267,52 @@ fn check_number(v: f64) -> (u64, Vec<Violation>) {
                     finding: None,
                     summary: format!("number {} (bits {:#x}, built by {}) written by {} as `{}` reads back as {:?}", expected, v.to_bits(), name, gen.name(), text.trim(), other),
                     replay: json!({"kind": "number literal", "bits": v.to_bits(), "built_by": name, "generator": gen.name(), "text": text}),
+                }),
+            }
+        }
+    }
+    // the number as an operand: the parentheses (or the space) the writer adds around a negative number decide the value
+    let operand = || Expression::from(v);
+    let two = || Expression::from(2.0);
+    // the expected value is what the reference interpreter gives the same expression with the number written in a form that
+    // cannot be misread (sign and magnitude between parentheses), so that both sides use the same arithmetic
+    let reference_number = if v.is_nan() {
+        "(0/0)".to_owned()
+    } else if v.is_infinite() {
+        if v > 0.0 { "(1/0)".to_owned() } else { "(-1/0)".to_owned() }
+    } else if v.is_sign_negative() {
+        format!("(-{:?})", -v)
+    } else {
+        format!("({:?})", v)
+    };
+    let reference = |template: &str| -> String { eval_number_text(&format!("return {}", template.replace("<n>", &reference_number))).unwrap_or_else(|e| e) };
+    let contexts: Vec<(&str, Expression, String)> = vec![
+        ("<n> ^ 2", BinaryExpression::new(BinaryOperator::Caret, operand(), two()).into(), reference("<n> ^ 2")),
+        ("<n> ^ -2", BinaryExpression::new(BinaryOperator::Caret, operand(), Expression::from(-2.0)).into(), reference("<n> ^ (-2)")),
+        ("2 ^ <n>", BinaryExpression::new(BinaryOperator::Caret, two(), operand()).into(), reference("2 ^ <n>")),
+        ("- <n>", UnaryExpression::new(UnaryOperator::Minus, operand()).into(), reference("- <n>")),
+        ("1 / <n>", BinaryExpression::new(BinaryOperator::Slash, Expression::from(1.0), operand()).into(), reference("1 / <n>")),
+        ("<n> - <n>", BinaryExpression::new(BinaryOperator::Minus, operand(), operand()).into(), reference("<n> - <n>")),
+        ("2 - <n>", BinaryExpression::new(BinaryOperator::Minus, two(), operand()).into(), reference("2 - <n>")),
+        ("<n> * 2", BinaryExpression::new(BinaryOperator::Asterisk, operand(), two()).into(), reference("<n> * 2")),
+    ];
+    for (name, expr, expected) in contexts {
+        let block = Block::default().with_last_statement(LastStatement::Return(ReturnStatement::one(expr)));
+        for gen in [Gen::Dense(80), Gen::Readable(80), Gen::Retain] {
+            n += 1;
+            let text = match dl::generate(&block, "", gen) {
+                Ok(t) => t,
+                Err(e) => {
+                    out.push(Violation { finding: None, summary: format!("{} writing `{}` for number {:?}", e, name, v), replay: json!({"bits": v.to_bits(), "context": name}) });
+                    continue;
+                }
+            };
+            match eval_number_text(&text) {
+                Ok(r) if r == expected => {}
+                other => out.push(Violation {
+                    finding: None,
+                    summary: format!("`{}` with the number {} (bits {:#x}) written by {} as `{}` evaluates to {:?}, expected {}", name, ser(v), v.to_bits(), gen.name(), text.trim(), other, expected),
+                    replay: json!({"kind": "number operand", "bits": v.to_bits(), "context": name, "generator": gen.name(), "text": text}),
                 }),
             }
         }
@@ -656,6 +702,52 @@ fn check_interpolated_roundtrip(text: &str) -> Vec<Violation> {
     out
 }
 
+/// text appended through the public API to the last string part of a parsed interpolated string is written by every generator
+fn check_appended_segment(literal: &str, appended: &str) -> Vec<Violation> {
+    let src = format!("return {}", literal);
+    let toks = |t: &str| -> Option<Vec<Tok>> { lex(t.as_bytes(), Mode::Luau).ok().map(|l| l.tokens.into_iter().map(|t| t.tok).collect()) };
+    let escaped = appended.replace('\\', "\\\\").replace('`', "\\`").replace('{', "\\{").replace('\n', "\\n");
+    let expected_text = format!("return {}{}`", &literal[..literal.len() - 1], escaped);
+    let expected = match toks(&expected_text) {
+        Some(t) => t,
+        None => return vec![],
+    };
+    let mut out = Vec::new();
+    for with_tokens in [false, true] {
+        let mut block = match dl::parse(&src, with_tokens) {
+            Ok(b) => b,
+            Err(_) => return vec![],
+        };
+        let mut done = false;
+        if let Some(LastStatement::Return(r)) = block.mutate_last_statement() {
+            if let Some(Expression::InterpolatedString(s)) = r.iter_mut_expressions().next() {
+                s.push_segment(StringSegment::from_value(appended));
+                done = true;
+            }
+        }
+        if !done {
+            return vec![];
+        }
+        for gen in [Gen::Dense(80), Gen::Readable(80), Gen::Retain] {
+            let problem = match dl::generate(&block, &src, gen) {
+                Err(e) => Some(e),
+                Ok(written) => match toks(&written) {
+                    Some(t) if t == expected => None,
+                    _ => Some(format!("written as {:?}", written)),
+                },
+            };
+            if let Some(problem) = problem {
+                out.push(Violation {
+                    finding: None,
+                    summary: format!("{} parsed {} tokens, then push_segment({:?}): {} by {}, expected the parts of {:?}", literal, if with_tokens { "with" } else { "without" }, appended, problem, gen.name(), expected_text),
+                    replay: json!({"kind": "appended segment", "literal": literal, "appended": appended}),
+                });
+            }
+        }
+    }
+    out
+}
+
 pub fn run(tier: Tier) -> Report {
     let mut report = Report::new("C13", "exploration", tier);
     report.rule = "strings: ALL byte strings of length <= 2 (65 793), all strings of length 3 (4 in thorough) over 23 class bytes, the long-bracket \
@@ -727,6 +819,15 @@ pub fn run(tier: Tier) -> Report {
         report.violations.push(v);
     }
     report.set("interpolated_literal_texts", holes.len() as u64);
+    let mut appended_cases = 0u64;
+    for literal in ["`a`", "`{x}a`", "`a{x}b`", "`{x}`", "``", "`a\\n{x}\\t`"] {
+        for appended in ["b", "1", " tail", "`", "{", "\n"] {
+            appended_cases += 6;
+            report.violations.extend(check_appended_segment(literal, appended));
+        }
+    }
+    report.evaluations += appended_cases;
+    report.set("appended_segment_cases", appended_cases);
     for idx in [11usize, 300, 70000 % strs.len(), strs.len() - 5000, strs.len() - 40] {
         let value = &strs[idx];
         let texts: Vec<String> = shapes(value)
